@@ -156,8 +156,9 @@ def run(ctx):
     elif q:
         ctx.tlc_mc(SPEC, "MCBitswapEngine.tla", "MCBitswapEngineLive.cfg", timeout=900)
     else:
-        ctx.tlc_mc(SPEC, "MCBitswapEngine.tla", "MCBitswapEngine.cfg", timeout=5400, coverage=True)
-        ctx.tlc_mc(SPEC, "MCBitswapEngine.tla", "MCBitswapEngineLive.cfg", timeout=1800)
+        # action coverage is measured on the small universe (TLC is several times slower with -coverage)
+        ctx.tlc_mc(SPEC, "MCBitswapEngine.tla", "MCBitswapEngineLive.cfg", timeout=3000, coverage=True)
+        ctx.tlc_mc(SPEC, "MCBitswapEngine.tla", "MCBitswapEngine.cfg", timeout=7000)
         r = ctx.tlc_mc(SPEC, "MCBitswapEngine.tla", "MCBitswapEngineAsBuilt.cfg", timeout=1800, expect_violation=True)
         if r["violated"] != "RawHaveOnly":
             ctx.broken("sanity: the as-built model (Dev_C36_StaleHave) should violate RawHaveOnly, got %s" % r["violated"])
